@@ -60,6 +60,14 @@ def compute_checksum(path, checksum_type):
     return checksum.hexdigest().lower()
 
 
+def _parse_timestamp(value):
+    # integers are taken as they are: a detour via float loses precision above 2**53
+    try:
+        return int(value)
+    except ValueError:
+        return int(float(value))
+
+
 class TreeInfo(productmd.common.MetadataBase):
     def __init__(self):
         super(productmd.common.MetadataBase, self)
@@ -360,7 +368,7 @@ class Tree(productmd.common.MetadataBase):
             self.platforms.add(i)
 
         if parser.has_option("general", "timestamp"):
-            self.build_timestamp = int(parser.getfloat("general", "timestamp"))
+            self.build_timestamp = _parse_timestamp(parser.get("general", "timestamp"))
         else:
             self.build_timestamp = -1
 
@@ -370,7 +378,7 @@ class Tree(productmd.common.MetadataBase):
         self.arch = parser.get(section, "arch")
         self.platforms = set([i for i in parser.get(section, "platforms").split(",") if i])
         if section == self._section:
-            self.build_timestamp = int(parser.getfloat(self._section, "build_timestamp"))
+            self.build_timestamp = _parse_timestamp(parser.get(self._section, "build_timestamp"))
         else:
             self.build_timestamp = -1
 
